@@ -15,6 +15,8 @@
        an error ends the evaluation, every worker that holds a result blocks forever in its send, and with it the
        goroutine that waits for the workers: par_stage_quiesces_refuted (known finding
        `worker/consumer-stops-early`), par_stage_quiesces_partial.
+     - multiUse and parallel map/accept read their source on the calling goroutine; a panic of the source is recovered
+       into an error element (two `fix:` commits): source_panic_strands_none; before: source_panic_before_repair_refuted.
    Observed, not proved: that the Go runtime really ends these goroutines (goroutine profile after a grace period). *)
 From P2 Require Import Base.Prelude Lex.Token Lex.Tok Lex.TokProofs.
 From P2 Require Import Conc.ParMap Conc.Quiesce.
@@ -98,6 +100,17 @@ Theorem par_stage_quiesces_partial : forall (A B C : Type) (f : nat -> A -> res 
   exists c, quiet (ParMap.step f yield s c) = true.
 Proof. exact @TokChanProofs.quiet_after_stop. Qed.
 
+(* a panic raised by the source list of multiUse / of a parallel map or accept (repaired: recovered into an error
+   element): no goroutine of the construct is stranded, whatever the source does *)
+Theorem source_panic_strands_none : forall waiting evs, stranded true waiting evs = 0.
+Proof. exact TokChanProofs.stranded_recovered. Qed.
+
+(* before the repair: every waiting goroutine is stranded exactly if the source panics
+   (numbers(3).combine((a,b)->f(20000)).multiUse({a:..,b:..}): waiting = 2, evs = [EvPanic]) *)
+Theorem source_panic_before_repair_refuted : forall waiting evs,
+  stranded false waiting evs = if existsb (fun e => match e with EvPanic => true | EvItem => false end) evs then waiting else 0.
+Proof. exact TokChanProofs.stranded_unrecovered. Qed.
+
 (* non-vacuity: the witness input and the prediction of the model for it, with and without the drain *)
 Example C12_nonvacuous :
   tokenize TokSysProofs.leak_cfg TokSysProofs.leak_input = [mkTok tNumber [49%N] 1; mkTok tClose [41%N] 1; mkTok tClose [41%N] 1]
@@ -117,3 +130,5 @@ Print Assumptions tochan_unwrapped_cost.
 Print Assumptions par_stage_quiesces_refuted.
 Print Assumptions stopped_stage_never_quiet.
 Print Assumptions par_stage_quiesces_partial.
+Print Assumptions source_panic_strands_none.
+Print Assumptions source_panic_before_repair_refuted.
